@@ -50,6 +50,11 @@ def idx(e, i):
     return ['idx', e, i]
 
 
+def host():
+    """the yaqlized probe object the harness binds to $h (opaque to the model)"""
+    return ['host']
+
+
 def idx2(e, i, d):
     """mapping[key, default]"""
     return ['idx2', e, i, d]
@@ -130,6 +135,8 @@ def render(e):
         return '%s[%s]' % (render(e[1]), render(e[2]))
     if k == 'idx2':
         return '%s[%s, %s]' % (render(e[1]), render(e[2]), render(e[3]))
+    if k == 'host':
+        return '$h'
     if k == 'bin':
         return '(%s %s %s)' % (render(e[2]), e[1], render(e[3]))
     if k == 'un':
@@ -164,6 +171,8 @@ def tla_ast(e):
         return ['idx', tla_ast(e[1]), tla_ast(e[2])]
     if k == 'idx2':
         return ['idx2', tla_ast(e[1]), tla_ast(e[2]), tla_ast(e[3])]
+    if k == 'host':
+        return ['const', ['o', 'H']]
     if k == 'bin':
         return ['bin', e[1], tla_ast(e[2]), tla_ast(e[3])]
     if k == 'un':
